@@ -4317,13 +4317,11 @@ impl<'a> Tyck<'a> for TyEnvT<su::TermId> {
                 }
             }
             | Tm::Var(def) => {
-                let annotation =
-                    tycker.statics.annotations_var.get(&def).copied().unwrap_or_else(|| {
-                        panic!(
-                            "resolved variable `{}` reached the checker before its binder",
-                            tycker.def_name(&def).plain()
-                        )
-                    });
+                // A member of a recursive group may be mentioned by the classifier that is
+                // needed to register it (`def A : A = ...`): no annotation exists yet.
+                let Some(annotation) = tycker.statics.annotations_var.get(&def).copied() else {
+                    tycker.err_k(TyckError::MissingAnnotation, std::panic::Location::caller())?
+                };
                 let ann = {
                     match switch {
                         | Switch::Syn => annotation,
